@@ -1,3 +1,5 @@
 import PyhmsVerif.Model.Proto
 import PyhmsVerif.Model.F64
 import PyhmsVerif.Model.Repair
+import PyhmsVerif.Model.Fit
+import PyhmsVerif.Model.Problem
